@@ -37,12 +37,14 @@ def plan(tier, seed):
         cfgs = gen.sig_orderings(1, 2)[::2] + rng.sample(gen.sig_orderings(3, 3), 9) + [gen.random_custom_cfg(rng, rng.choice((2, 3))) for _ in range(3)]
         cfgs += [{'named': '2DPGA'}, {'p': 3, 'q': 0, 'r': 0, 'opts': {'cse': False}}]
         cfgs += [{'p': 3, 'q': 0, 'r': 0, 'opts': {'graded': True}}, {'p': 2, 'q': 0, 'r': 1, 'opts': {'graded': True}}, {'p': 2, 'q': 1, 'r': 0, 'opts': {'graded': True}}]
+        cfgs += [{'p': 2, 'q': 1, 'r': 0, 'opts': {'wrapper': 'identity'}}, {'p': 2, 'q': 0, 'r': 1, 'opts': {'wrapper': 'wraps'}}]
         per = 8
         nshards = 16
     else:
         cfgs = gen.sig_orderings(1, 3) + [gen.random_custom_cfg(rng, rng.choice((2, 3))) for _ in range(20)] + gen.NAMED[:2]
         cfgs += [dict(c, opts={'cse': False}) for c in rng.sample(gen.sig_orderings(2, 3), 6)]
         cfgs += [dict(c, opts={'graded': True}) for c in gen.pqr_all(2, 3)]
+        cfgs += [dict(c, opts={'wrapper': w}) for c, w in zip(rng.sample(gen.sig_orderings(2, 3), 6), ['identity', 'wraps'] * 3)]
         per = 60
         nshards = 64
     U = [{'cfg': c, 'per_op': per} for c in cfgs]
@@ -63,10 +65,13 @@ def run_shard(shard, ctx):
                 if ctx.out_of_time():
                     ctx.count('cases_skipped_out_of_time')
                     return
-                one_case(ctx, alg, cfg, name, op)
+                ks = one_case(ctx, alg, cfg, name, op)
+                if ks and not cfg.get('opts', {}).get('graded') and op not in ('norm', 'sqrt') and any(len(k) >= 2 for k in ks) and ctx.rng.random() < 0.3:
+                    # the same blades in another stored key order, on the same algebra, straight afterwards
+                    one_case(ctx, alg, cfg, name, op, force_keysets=[gen.permuted(ctx.rng, k) if len(k) >= 2 else k for k in ks])
 
 
-def one_case(ctx, alg, cfg, name, op):
+def one_case(ctx, alg, cfg, name, op, force_keysets=None):
     import sympy
     rng = ctx.rng
     to = CASE_TIMEOUT[ctx.tier]
@@ -98,6 +103,9 @@ def one_case(ctx, alg, cfg, name, op):
             if rng.random() < 0.3:
                 ks = gen.permuted(rng, ks)
             keysets.append(ks)
+    if force_keysets is not None:
+        keysets = [tuple(k) for k in force_keysets]
+        ctx.count('same_blades_other_key_order_followups')
     mode = rng.choice(['mixed', 'mixed', 'mixed', 'allsym', 'strings', 'shared', 'symnum', 'negpairs'])
     if mode == 'shared' and arity == 2:
         keysets[1] = keysets[0] if rng.random() < 0.7 else gen.permuted(rng, keysets[0])
@@ -149,7 +157,7 @@ def one_case(ctx, alg, cfg, name, op):
         num_vals.append(nv)
         partition.append(part)
     if not point:
-        return
+        return None
     cid = [name, op, [list(k) for k in keysets], partition, sorted(point)]
     if not ctx.want(cid):
         return
@@ -228,6 +236,24 @@ def one_case(ctx, alg, cfg, name, op):
             compare('positional call in name order', g2)
         elif st2 == 'exc':
             ctx.note_raised(g2, 'poscall')
+    # the operands themselves are symbolic multivectors too (stored in whatever key order they were built with): calling one
+    # with the values must give the numeric operand, blade by blade
+    for j, (xsym, xnum) in enumerate(zip(xs, xn)):
+        fs = sorted(getattr(xsym, 'free_symbols', ()), key=lambda s: s.name)
+        if not fs:
+            continue
+        stc, gc = ctx.guarded(to, lambda: xsym(**{s.name: point[s.name] for s in fs}))
+        if stc == 'ok':
+            ctx.count('operand_calls_compared')
+            if tuple(xsym.keys()) != tuple(sorted(xsym.keys())):
+                ctx.count('operand_calls_with_noncanonical_key_order')
+            gd = mv_dict(gc) if hasattr(gc, 'keys') else {0: gc}
+            bad = elem_diff(gd, mv_dict(xnum))
+            if bad:
+                ctx.violation('calling a symbolic operand with its values does not give the numeric operand', cid + ['operand-call', j],
+                              stored_keys=list(xsym.keys()), got=show_elem(gd), expected=show_elem(mv_dict(xnum)), **wit)
+        elif stc == 'exc':
+            ctx.note_raised(gc, 'operand-call')
     st3, g3 = ctx.guarded(to, lambda: rs.map(lambda v: sympy.sympify(v).subs({sympy.Symbol(n): sympy.Rational(p.numerator, p.denominator)
                                                                                  for n, p in point.items()})))
     if st3 == 'ok':
@@ -235,3 +261,4 @@ def one_case(ctx, alg, cfg, name, op):
         compare('sympy substitution', g3)
     elif st3 == 'exc':
         ctx.note_raised(g3, 'subs')
+    return keysets
